@@ -13,7 +13,9 @@ RULE = (
     'irregular spacing; steps 1, .5, 2, .1, .2, .3, 2.5, 5 and random) handed to the real regrid.regrid; every item '
     'yielded is aligned (sequence alignment, tie-ambiguous levels optional) with the integers k such that k*step '
     'lies in [lo, hi) of each consecutive pair, decided in exact Fraction arithmetic, and each abscissa must lie in '
-    'its bracket and on the chord within brentq\'s documented tolerance.  build_head_mapping: one entry per series and '
+    'its bracket and on the chord within brentq\'s documented tolerance.  The same oracle is attached as a contract to '
+    'regrid.regrid while real rise / recession workflows run on planted and noisy datasets, so every call the pipeline '
+    'itself makes is checked.  build_head_mapping: one entry per series and '
     'level, equal to the mean of that series\' crossings.  Non-trivial: series with >= 1 sample exactly on a level '
     'and >= 1 direction change; distinct by (quantised shape, step).'
 )
@@ -21,7 +23,7 @@ ASSUMPTIONS = [
     'tie band: y/step within 4 eps of an integer and not exactly representable -> either outcome accepted',
     'abscissa residual tolerance: 64 eps max(1,|Y|) + |slope| (2e-12 + 4 eps |x|) * 2 (brentq xtol=2e-12, rtol=4 eps)',
 ]
-SIZES = {'quick': dict(n=10000, hm=500), 'thorough': dict(n=400000, hm=16000)}
+SIZES = {'quick': dict(n=10000, hm=500, wf=8), 'thorough': dict(n=400000, hm=16000, wf=320)}
 REQUIRED = {
     tier: {
         'regrid-calls': 1000,
@@ -34,6 +36,8 @@ REQUIRED = {
         'pairs-falling': 1000,
         'head-mappings-checked': 100,
         'empty-series': 1,
+        'regrid-calls-made-by-rise': 20,
+        'regrid-calls-made-by-recession': 20,
     }
     for tier in ('quick', 'thorough')
 }
@@ -196,10 +200,51 @@ def check_head_mapping_case(ctx, rng):
         rec.hit('head-mappings-with-shared-levels')
 
 
+def check_workflow_calls(ctx, rng, n):
+    """L1 contract on regrid.regrid while real rise / recession workflows run:
+    every call the pipeline itself makes is put to the same oracle"""
+    import spowtd.regrid as rg
+    from .. import curves_common, gen_planted, instrument
+
+    rec = ctx.rec
+    contracts = instrument.Contracts()
+    calls = []
+
+    def post(c, args, kwargs, result):
+        items = list(result)
+        calls.append((args, kwargs, items))
+        return iter(items)
+
+    contracts.wrap(rg, 'regrid', post, snapshot=False)
+    try:
+        for i in range(n):
+            case = gen_planted.gen(rng) if i % 2 == 0 else gen_planted.gen_noisy(rng)
+            connection, _, exc = curves_common.build_dataset(ctx, case, 'function')
+            if exc is not None:
+                if connection is not None:
+                    connection.close()
+                continue
+            for kind in ('rise', 'recession'):
+                del calls[:]
+                curves_common.run_curve(connection, kind)
+                for args, kwargs, items in calls:
+                    x, y, step = args[0], args[1], args[2]
+                    rec.case()
+                    rec.hit('regrid-calls-made-by-' + kind)
+                    errs, info = oracle_regrid.check([float(v) for v in x], [float(v) for v in y], float(step), items)
+                    rec.hit('workflow-crossings-must', info['must'])
+                    for key, w in errs:
+                        rec.violation(key, dict(w, made_by=kind), {'kind': 'regrid', 'x': [float(v) for v in x], 'y': [float(v) for v in y], 'step': float(step)}, 'regrid')
+            connection.close()
+    finally:
+        contracts.uninstall()
+
+
 def run(ctx):
     import numpy as np
 
     s = SIZES[ctx.tier]
+    check_workflow_calls(ctx, ctx.rng('workflow'), ctx.share(s['wf']))
     rng = ctx.rng('regrid')
     for _ in range(ctx.share(s['n'])):
         x, y, step, flags = gen_series(rng)
